@@ -788,7 +788,8 @@ class PhaseField(_IModel):
             tr_e_pg = Trace(matrix_e_pg)
 
             # Eigenvalue calculations [e,pg]
-            delta = tr_e_pg**2 - (4 * det_e_pg)
+            # delta = (v1 - v2)² >= 0 (rounding can make it slightly negative)
+            delta = np.maximum(tr_e_pg**2 - (4 * det_e_pg), 0)
 
             eigs_e_pg = FeArray.zeros(Ne, nPg, 2)
             eigs_e_pg[:, :, 0] = (tr_e_pg - np.sqrt(delta)) / 2
